@@ -33,7 +33,9 @@ ID = "C09"
 RULE = ("histories = construction route x sequence of FSA edits (dense: every "
         "history of depth<=3 over 3 vertices x 2 labels x 6 routes; random: depth "
         "<=30 over <=6 vertices/4 labels, string or integer labels, rename maps "
-        "given as dict / list / tuple), two automata interleaved, every live object "
+        "given as dict / list / tuple, insertions one edge at a time or as whole "
+        "add_edges batches with repeated / already-present triples and walks, "
+        "ignore_redundant on and off), two automata interleaved, every live object "
         "of a history (copy.copy / deepcopy / non-inplace results and their sources) "
         "re-judged after every step; a case is "
         "non-trivial when it performs >=1 edit on a non-empty automaton; distinct "
@@ -44,6 +46,10 @@ ASSUMPTIONS = [
     "non-injective renames, are out of domain (counted, not judged)",
     "a vertex missing from the incoming view means 'no incoming edges' "
     "(the view is a defaultdict)",
+    "add_edges(ignore_redundant=False) is the caller's promise that no edge "
+    "of the batch is already present or named twice: only such batches are "
+    "given to it; with the default ignore_redundant=True any repetition is in "
+    "domain and the edge is stored once",
     "a rename map is anything indexable by the labels present (dict, list, "
     "tuple: CoxeterGroup.automaton() passes a list); a map that cannot be "
     "indexed by some present label is out of domain",
@@ -293,6 +299,13 @@ def dense_ops():
     # names disjoint from / overlapping the old integer labels (C09-r3-1)
     ops.append(("rename_seq", "list", ["a", "b"], True))
     ops.append(("rename_seq", "tuple", [1, "a"], False))
+    # one add_edges call with several edges: a walk running along an edge
+    # twice, a loop named twice, overlapping label lists, and a batch of
+    # distinct edges with the redundancy filter switched off (C09-r4-2)
+    ops.append(("add_edges_batch", [(0, 1, "a"), (1, 0, "b"), (0, 1, "a")], False, True))
+    ops.append(("add_edges_batch", [(2, 2, "b"), (2, 1, "a"), (2, 2, "b")], False, True))
+    ops.append(("add_edges_batch", [(1, 2, ["a"]), (1, 2, ["b", "a"])], True, True))
+    ops.append(("add_edges_batch", [(1, 2, "a"), (2, 1, "b"), (1, 2, "a")], False, False))
     # shallow copies: go on editing the copy / go on editing the original, the
     # other object stays live in the history's world (C09-r3-2)
     ops.append(("copy",))
@@ -384,6 +397,43 @@ def random_route(rng, int_labels=False, shallow=False):
             fsa_model.Model.from_target_dict(td, [0]), labels)
 
 
+def resolve_batch(M, triples, elist, ignore_redundant, picks=()):
+    """The in-domain edge list one add_edges call is given, worked out against
+    the model at the moment of the call:
+      * `picks` splice edges the automaton already has into the batch;
+      * a triple that would make the automaton non-deterministic (w.r.t. the
+        automaton or an earlier triple of the same batch) is dropped;
+      * repeats -- of an edge already present or of an earlier triple of the
+        batch -- stay in when ignore_redundant is True (the documented default:
+        the repeat is ignored, the edge is stored once); with
+        ignore_redundant=False the caller vouches that no edge is redundant,
+        so repeats are taken out of the batch (then the result is again the
+        plain set union);
+      * elist mode: labels repeated inside one label list are out of domain
+        (dropped), an emptied list drops its triple."""
+    batch = [(t, h, list(l) if elist else l) for (t, h, l) in triples]
+    have = M.edges()
+    for p in picks:
+        if have:
+            v, w, l = have[p % len(have)]
+            batch.insert(p % (len(batch) + 1), (v, w, [l] if elist else l))
+    local = dict(M.delta)
+    out = []
+    for (t, h, l) in batch:
+        keep = []
+        for lab in (l if elist else [l]):
+            if lab in keep or local.get((t, lab), h) != h:
+                continue
+            if not ignore_redundant and (t, lab) in local:
+                continue
+            keep.append(lab)
+        for lab in keep:
+            local[(t, lab)] = h
+        if keep:
+            out.append((t, h, keep if elist else keep[0]))
+    return out
+
+
 def apply_op(op, F, M):
     """Apply op to library automaton F and model M.  Returns (F, M, status)
     where status is 'ok' or an out-of-domain reason (then F is tainted)."""
@@ -406,6 +456,32 @@ def apply_op(op, F, M):
         F.add_edges([(t, h, list(ls))], elist=True)
         for l in ls:
             M.add_edge(t, h, l)
+    elif kind in ("add_edges_batch", "add_edges_walk"):
+        # ONE add_edges call carrying several edges (seeded change C09-r4-2:
+        # the redundancy filter evaluated once for the whole batch, so a triple
+        # repeated inside the batch is listed twice in two of the views)
+        if kind == "add_edges_walk":
+            # the edge list of a walk: it follows the automaton where the
+            # (vertex, label) transition exists -- also one the walk itself made
+            # a moment ago -- and moves to the pre-drawn vertex otherwise
+            _, start, labs, heads, ign = op
+            elist, picks, triples = False, (), []
+            local, v = dict(M.delta), start
+            for l, h in zip(labs, heads):
+                w = local.setdefault((v, l), h)
+                triples.append((v, w, l))
+                v = w
+        else:
+            _, triples, elist, ign = op[:4]
+            picks = op[4] if len(op) > 4 else ()
+        batch = resolve_batch(M, triples, elist, ign, picks)
+        if not batch:
+            return F, M, "empty batch (only non-deterministic / undeclared-redundant insertions)"
+        F.add_edges([(t, h, list(l) if elist else l) for (t, h, l) in batch],
+                    elist=bool(elist), ignore_redundant=bool(ign))
+        for (t, h, l) in batch:
+            for lab in (l if elist else [l]):
+                M.add_edge(t, h, lab)
     elif kind == "delete_vertex":
         if op[1] not in M.vertices:
             return F, M, "delete of a missing vertex"
@@ -663,7 +739,9 @@ def random_ops(rng, labels, depth, nv=7):
     for _ in range(depth):
         r = rng.random()
         t, h = int(rng.integers(0, nv)), int(rng.integers(0, nv))
-        if r < 0.35:
+        if r < 0.05:
+            ops.append(random_batch(rng, labels, nv))
+        elif r < 0.35:
             ops.append(("add_edge", t, h, labels[int(rng.integers(0, len(labels)))]))
         elif r < 0.45:
             k = int(rng.integers(1, len(labels) + 1))
@@ -700,6 +778,63 @@ def random_ops(rng, labels, depth, nv=7):
         else:
             ops.append(("switch",))
     return ops
+
+
+BATCH_STYLES = ["repeats", "walk", "with-existing", "elist"]
+
+
+def random_batch(rng, labels, nv, style=None, ignore_redundant=None):
+    """one add_edges call with several edges.  repeats: triples drawn with
+    replacement from a small pool, one of them named again; walk: the edge
+    list of a random walk (short, few vertices: it re-uses its own edges);
+    with-existing: as repeats, plus edges the automaton already has spliced
+    in at apply time; elist: (tail, head, [labels]) triples with repeated
+    pairs and overlapping label lists."""
+    style = style or BATCH_STYLES[int(rng.integers(0, 4))]
+    ign = bool(rng.random() < 0.75) if ignore_redundant is None else bool(ignore_redundant)
+    nl = len(labels)
+    if style == "walk":
+        n = int(rng.integers(2, 9))
+        span = int(rng.integers(2, min(nv, 4) + 1))
+        return ("add_edges_walk", int(rng.integers(0, span)),
+                [labels[int(rng.integers(0, nl))] for _ in range(n)],
+                [int(rng.integers(0, span)) for _ in range(n)], ign)
+    k = int(rng.integers(2, 6))
+    span = int(rng.integers(2, nv + 1))
+    if style == "elist":
+        triples = []
+        for _ in range(k):
+            m = int(rng.integers(1, nl + 1))
+            triples.append((int(rng.integers(0, span)), int(rng.integers(0, span)),
+                            [labels[i] for i in rng.permutation(nl)[:m]]))
+    else:
+        triples = [(int(rng.integers(0, span)), int(rng.integers(0, span)),
+                    labels[int(rng.integers(0, nl))]) for _ in range(k)]
+    for _ in range(int(rng.integers(1, 3))):      # name an earlier triple again
+        t, h, l = triples[int(rng.integers(0, len(triples)))]
+        triples.insert(int(rng.integers(0, len(triples) + 1)),
+                       (t, h, list(l) if style == "elist" else l))
+    picks = [int(rng.integers(0, 64)) for _ in range(int(rng.integers(1, 3)))] \
+        if style == "with-existing" else []
+    return ("add_edges_batch", triples, style == "elist", ign, picks)
+
+
+def wl_batches(run, rng, idx):
+    """histories whose insertions are whole batches: style idx % 4 (repeated
+    triples / walk re-using an edge / edges already present / elist), every
+    third case of a style with ignore_redundant=False, interleaved with the
+    other edits; string and integer labels, every route (C09-r4-2)."""
+    style = BATCH_STYLES[idx % 4]
+    ign = (idx // 4) % 3 != 2
+    name, F, M, labels = random_route(rng, int_labels=idx % 5 == 4, shallow=idx % 7 == 6)
+    ops = []
+    for _ in range(int(rng.integers(1, 5))):
+        ops.append(random_batch(rng, labels, 7, style, ign))
+        ops.extend(random_ops(rng, labels, int(rng.integers(0, 3))))
+    run_history(run, name + "/batch:%s:%s" % (style, "filtered" if ign else "unfiltered"),
+                F, M, ops)
+    if idx < 2:
+        run.sample({"route": name, "ops": ops[:6]})
 
 
 SEQ_CONTAINERS = ["list", "tuple", "dict"]
@@ -1115,6 +1250,7 @@ WORKLOADS = [
     Workload("dense-depth3-all", wl_dense_block, quick=0,
              thorough=(DENSE_TOTAL + 255) // 256),
     Workload("random-histories", wl_random, quick=400, thorough=6000),
+    Workload("edge-batches", wl_batches, quick=240, thorough=3000),
     Workload("relabel-sequence-maps", wl_relabel, quick=180, thorough=2500),
     Workload("copy-then-edit", wl_copy_edit, quick=240, thorough=3000),
     Workload("default-sharing", wl_default_sharing, quick=40, thorough=400),
